@@ -36,9 +36,13 @@ pub fn stream_file(name: &str) -> Vec<u8> {
         "bcf_raw" => gen::own_bcf(&cols, &recs),
         "bcf_gz" => gen::bgzf_chunks(&gen::own_bcf(&cols, &recs), 256),
         "empty" => Vec::new(),
-        // larger than the reader's 64 KiB look-ahead: a cohort of 100 samples x 2200 records
+        // containers cut off in the middle of a block / record: must be errors, never a shorter call set
+        "vcf_gz_cut" => { let mut b = gen::bgzf_chunks(vcf.as_bytes(), 300); b.truncate(b.len() * 3 / 5); b }
+        "bcf_gz_cut" => { let mut b = gen::bgzf_chunks(&gen::own_bcf(&cols, &recs), 256); b.truncate(b.len() * 3 / 5); b }
+        "bcf_raw_cut" => { let mut b = gen::own_bcf(&cols, &recs); b.truncate(b.len() - 7); b }
+        // larger than the reader's 64 KiB look-ahead: a cohort of 100 samples x 1100 records
         "big_vcf" | "big_vcf_gz" | "big_bcf_gz" => {
-            let (bcols, btext) = crate::fam_container::cohort_vcf(4242, 100, 2200, 8, 1);
+            let (bcols, btext) = crate::fam_container::cohort_vcf(4242, 100, 1100, 8, 1);
             match name {
                 "big_vcf" => btext.into_bytes(),
                 "big_vcf_gz" => gen::bgzf_chunks(btext.as_bytes(), 30000),
